@@ -275,11 +275,52 @@ def hashseed(params):
     return {"violated": bool(bad), "problems": bad}
 
 
+def rebound(params):
+    """in-process retry: a fault in one subject, then the aggregator variable is re-bound to a new aggregator on the same output file
+    (the old object is released, the collector runs, as in a notebook or retry loop) and every subject is resubmitted"""
+    serial_pools()
+    import gc
+    import panoptica.panoptica_aggregator as A
+    bad = []
+    names = ["s0", "s1", "s2", "s3"]
+    for collect_every in (True, False):
+        with tempfile.TemporaryDirectory() as d:
+            ref_out = os.path.join(d, "ref.tsv")
+            session(ref_out, names)
+            ref_rows = read_rows(ref_out)
+            out = os.path.join(d, "out.tsv")
+            try:
+                agg = A.Panoptica_Aggregator(_evaluator(), out)
+                for n in names[:2]:
+                    p, r = SUBJ[n]
+                    agg.evaluate(p.copy(), r.copy(), n)
+                    if collect_every:
+                        gc.collect()
+                try:
+                    agg.evaluate(np.zeros((2, 2), np.uint8), np.zeros((3,), np.uint8), names[2])   # faulty subject: shapes disagree
+                except BaseException:
+                    pass
+                agg = A.Panoptica_Aggregator(_evaluator(), out)   # re-bound; the first object becomes garbage
+                gc.collect()
+                for n in names:
+                    p, r = SUBJ[n]
+                    try:
+                        agg.evaluate(p.copy(), r.copy(), n)
+                    except Exception as e:
+                        bad.append(f"resubmitting {n} raised {type(e).__name__}: {e}"[:160])
+                    gc.collect()
+                b = check_final(out, names, ref_rows)
+            except Exception as e:
+                b = [f"raised {type(e).__name__}: {e}"[:160]]
+            bad += [f"[re-bound aggregator, gc {'after every subject' if collect_every else 'once'}] {x}" for x in b]
+    return {"violated": bool(bad), "problems": bad[:5]}
+
+
 def bounded(params):
     serial_pools()
     tier, seed = params.get("tier", "quick"), int(params.get("seed", 0))
     failures, evals = [], 0
-    for kind, fn in (("restart", restart), ("crash", crash), ("neighbours", neighbours), ("header_order", header_order), ("quoted_names", quoted_names), ("hashseed", hashseed), ("shared_evaluator", shared_evaluator)):
+    for kind, fn in (("restart", restart), ("crash", crash), ("neighbours", neighbours), ("header_order", header_order), ("quoted_names", quoted_names), ("hashseed", hashseed), ("shared_evaluator", shared_evaluator), ("rebound", rebound)):
         res = fn({})
         evals += 1
         if res["violated"]:
